@@ -10,7 +10,8 @@ from mc.core import Acc, Hang, fp_hash, horizon
 
 ID = "C06"
 RULE = ("E-HIST: every history up to depth 6 (thorough 9) of nodes(S_i) for 4 label sets / re-presenting the same node objects "
-        "reversed or rotated / compute() / set_options(cfg_j) for 4 option dicts on one real Force engine, replayed on fresh "
+        "reversed or rotated / compute() / set_options(cfg_j) for 4 option dicts / creating and running ANOTHER engine with "
+        "different options (2 variants) on one real Force engine, replayed on fresh "
         "objects, states deduplicated by a fingerprint of the engine + node graph (stubs, aliasing); at every compute() the "
         "label -> (layer, position) map must equal that of a fresh engine with the accumulated options and fresh sorted nodes, "
         "and the engine's node list must still be exactly the caller's labels. E-INPUT: every permutation (n<=3; n=4: 6 of 24 "
@@ -23,7 +24,9 @@ REQUIRED_COUNTERS = ("computes_checked", "recomputes_on_stale_state", "perm_case
 
 SETS = [[(0, 4), (10, 4)], [(1, 4), (1.5, 4), (2, 1)], [(0, 4), (1, 4), (1, 4), (2.5, 1), (6, 4)], [(3, 4), (3, 4), (3, 4), (3.5, 1)]]
 CFG = [{"maxPos": 10}, {"maxPos": None}, {"algorithm": "simple", "maxPos": 9}, {"nodeSpacing": 1.5, "stubWidth": 2}]
-OPS = [("N", i) for i in range(len(SETS))] + [("P", "rev"), ("P", "rot"), ("C", None)] + [("O", j) for j in range(len(CFG))]
+OTHER = [{"maxPos": 7, "density": 0.4, "nodeSpacing": 0, "stubWidth": 0, "algorithm": "simple"}, {"algorithm": "none", "maxPos": 50}]
+OPS = ([("N", i) for i in range(len(SETS))] + [("P", "rev"), ("P", "rot"), ("C", None)] + [("O", j) for j in range(len(CFG))]
+       + [("E", j) for j in range(len(OTHER))])
 
 
 def bounds(tier, seed):
@@ -41,7 +44,14 @@ def build(hist, sets):
     from labella.node import Node
     f = Force()
     nodes, acc = [], {}
+    others = []  # other live engines: a layout must not depend on them
     for op, a in hist:
+        if op == "E":
+            g = Force(dict(OTHER[a]))
+            g.nodes([Node(p, w) for p, w in sets[1]])
+            g.compute()
+            others.append(g)
+            continue
         if op == "N":
             nodes = [Node(p, w) for p, w in sets[a]]
             f.nodes(nodes)
@@ -54,7 +64,7 @@ def build(hist, sets):
         elif op == "O":
             f.set_options(dict(CFG[a]))
             acc.update(CFG[a])
-    return f, nodes, acc
+    return f, nodes, acc, others
 
 
 def result(nodes):
@@ -75,7 +85,7 @@ def check_history(hist, sets):
     """Judge the last op of hist. -> ((key, reason)|None, (force, nodes)|None)"""
     try:
         with horizon(120.0):
-            f, nodes, acc = build(hist, sets)
+            f, nodes, acc, others = build(hist, sets)
             if hist and hist[-1][0] == "C" and nodes:
                 ref = reference([(n.idealPos, n.width) for n in nodes], acc)
                 got = result(nodes)
@@ -89,7 +99,7 @@ def check_history(hist, sets):
         return ("HANG", "history %s did not return" % fmt(hist)), None
     except Exception as e:
         return ("EXC:" + type(e).__name__, "history %s raised %r" % (fmt(hist), e)), None
-    return None, (f, nodes)
+    return None, (f, nodes, others)
 
 
 def fmt(hist):
@@ -120,7 +130,8 @@ def hist_expand(ctx, h, acc):
         if bad:
             acc.violation({"hist": [list(o) for o in nh], "sets": ctx["sets"]}, bad[0], bad[1], order=(len(nh), oi))
             continue
-        succ.append((fp_hash([st[0], st[1]]), [list(o) for o in nh]))
+        succ.append((fp_hash([st[0], st[1], [g.options for g in st[2]], [g.distributor.options for g in st[2]]]),
+                     [list(o) for o in nh]))
     if len(h) == 3:
         acc.sample({"hist": [list(o) for o in h]})
     return succ
